@@ -426,7 +426,7 @@ Definition rtree_RTree_Extent (t : (rtree_RTree F)) : partial ((rtree_Box F) * b
 (* geom/twkb_parser.go:twkbParser.checkCount *)
 Definition geom_twkbParser_checkCount (p : (geom_twkbParser F)) (count : Z) (minBytesPerElement : Z) : bool :=
   let remaining := (wrap_u64 (wrap_i64 (Z.sub (Z.of_nat (length (geom_twkbParser_twkb p))) (geom_twkbParser_pos p)))) in
-  if (Z.geb count (wrap_u64 (Z.quot remaining (wrap_u64 minBytesPerElement)))) then
+  if (Z.gtb count (wrap_u64 (Z.quot remaining (wrap_u64 minBytesPerElement)))) then
     false
   else
     true.
